@@ -226,6 +226,9 @@ class LLOneParser:
             current = stack.pop()
             if current == "$" and word[-1] == "$":
                 return parse_tree
+            if current == "$":
+                # The input continues after a complete parse
+                raise NotParsableException
             if current.value == word[-1]:
                 word.pop()
             else:
